@@ -19,7 +19,7 @@ from . import c01
 
 ID = "C18"
 LEVEL = "fault_enumeration"
-TECHNIQUE = "deterministic simulation with connection-level fault injection: every fault kind {EOF, reset, EOF inside a message, junk then EOF, handler exception, silent peer death (write error), TTY stdin EOF, handler exception on the TTY channel} injected at every step index of seeded multi-connection session scripts on real TCP/TTY handlers; router membership, BLOB routing, delivery to survivors and to a reconnecting peer checked"
+TECHNIQUE = "deterministic simulation with connection-level fault injection: every fault kind {EOF, reset, EOF inside a message, junk then EOF, handler exception, silent peer death (write error), TTY stdin EOF, handler exception on the TTY channel, a write() call that raises} injected at every step index of seeded multi-connection session scripts on real TCP/TTY handlers; router membership, BLOB routing, delivery to survivors and to a reconnecting peer checked"
 RULE = ("scenario = session script of 2-3 concurrent connections (raw peers, a library client, optionally the TTY channel): handshakes, "
         "enableBLOB, writes, device text/BLOB updates x ONE fault (kind x step index, enumerated round-robin over the run index; two faults "
         "and more connections in the thorough tier) x network knobs; afterwards further device traffic, then a reconnect; distinct = "
@@ -31,12 +31,12 @@ ASSUMPTIONS = [
     "a peer that vanishes without FIN is only noticed when the server next writes to it (as with real TCP); cleanliness is demanded at quiescence after the next device message",
     "delivery 'attempted' means the router handing a message to the connection's handler after it was unregistered",
 ]
-QUICK_RUNS = 2400
+QUICK_RUNS = 2700
 QUICK_BUDGET_S = 150
 THOROUGH_BUDGET_S = 360
 CHUNK = 50
 STEP_KEYS = ("steps",)
-FAULTS = ["eof", "reset", "eof_mid_message", "junk_then_eof", "handler_exception", "write_error", "tty_eof", "tty_handler_exception"]
+FAULTS = ["eof", "reset", "eof_mid_message", "junk_then_eof", "handler_exception", "write_error", "tty_eof", "tty_handler_exception", "write_raises"]
 
 
 def _device():
@@ -234,6 +234,9 @@ def execute(scen):
                 sim.do(p.close)
             elif kind == "handler_exception":
                 sim.do(p.send, '<newTextVector device="D" name="TXT"><oneText name="T0">BOOM</oneText></newTextVector>\n')
+            elif kind == "write_raises":
+                # a failing system call: the server's next write() to this peer raises synchronously (and the connection is dead)
+                c.srv_transport.fail_next_write = BrokenPipeError("sim: injected EPIPE in write()")
             elif kind == "write_error":
                 # the peer vanishes without FIN; the server finds out when it next writes
                 def vanish():
